@@ -350,7 +350,9 @@ func (fr *Frame) load(st *State, p Val, t types.Type) Val {
 }
 
 func (fr *Frame) store(st *State, p Val, t types.Type, v Val) {
-	v = fr.opaque(st, v)
+	if p.K != KCellPtr {
+		v = fr.opaque(st, v) // closures kept in the heap become opaque references
+	}
 	switch p.K {
 	case KCellPtr:
 		st.cells[p.Cell] = v
